@@ -23,7 +23,9 @@ RULE = (
     "ret_arr with generated operands, incl. faulting ones), receive a keep pair (recv_epr + scripted response), the network stack taking a "
     "physical qubit ahead of delivery, subroutines that stay suspended in a wait while other applications run (start / deliver / resume "
     "as separate steps, up to three suspended at once, on two sockets, also into a virtual qubit that is still allocated so that the response has to wait), all through "
-    "serialised messages (plus two fixed histories in which one subroutine stays suspended while another application runs 300 / 600 subroutines); invariants after every step (incl. the position lookup instructions use for every mapped qubit).  Thorough adds exhaustive enumeration of all histories to depth 5 "
+    "serialised messages; subroutines that touch the unit module, declare an array and stay suspended in wait_all on it while their application "
+    "runs other subroutines, is stopped and is registered again (any unit-module size), and then continue with further allocations / frees in the new registration "
+    "(start / resume as separate steps, and as one generated multi-step history) (plus two fixed histories in which one subroutine stays suspended while another application runs 300 / 600 subroutines, and one in which an application is stopped and registered again under a waiting subroutine); invariants after every step (incl. the position lookup instructions use for every mapped qubit).  Thorough adds exhaustive enumeration of all histories to depth 5 "
     "over a reduced alphabet.  Non-trivial = >=2 applications alive at once and >=1 stop; distinct by history hash"
 )
 ASSUMPTIONS = [
@@ -91,6 +93,8 @@ class Runner13:
         self.deferred: List[int] = []  # physical qubits of delivered pairs whose virtual qubit is still allocated (response waits)
         self.n_waiting_unreserved = 0  # waiting responses whose physical qubit was only reported by the stack (nothing marked yet)
         self.suspended: List[Dict[str, Any]] = []  # subroutines waiting for a pair (oldest request first)
+        self.waiting: List[Dict[str, Any]] = []  # subroutines suspended in wait_all on an array of their application
+        self.epoch: Dict[int, int] = {}  # number of registrations of each application id so far
 
     def case(self):
         return {"history": list(self.history)}
@@ -148,6 +152,7 @@ class Runner13:
                 what = "re-register" if a in self.stopped else "register"
                 raise Failure(f"{what}-raises:{type(e).__name__}", self.case(), f"cannot {what} application {a}: {type(e).__name__}: {str(e)[:160]}")
             self.model[a] = ri.RefState(unit_size=size)
+            self.epoch[a] = self.epoch.get(a, 0) + 1
             self.stopped.discard(a)
             stepping = a
             fresh = self.snapshot_app(a)
@@ -162,6 +167,8 @@ class Runner13:
             del self.model[a]
             self.stopped.add(a)
             self.info["stops"] += 1
+            if any(w_["app"] == a for w_ in self.waiting):
+                self.info["stop_while_waiting"] = self.info.get("stop_while_waiting", 0) + 1
             ex = self.ex
             for name in ("_registers", "_app_arrays", "_shared_memories", "_qubit_unit_modules"):
                 if a in getattr(ex, name):
@@ -346,6 +353,98 @@ class Runner13:
                 snap = self.snapshot_app(a)
                 if snap["shared_regs"].get("R1") != 40 + a:
                     raise Failure("epr-resume:wrong-application", self.case(), f"application {a}: its resumed subroutine should have returned R1={40 + a}; host-visible registers {snap['shared_regs']}")
+        elif k == "wait_start":
+            # a subroutine of application a: generated macro-ops, then a fresh array and wait_all on it (always blocks: the
+            # entries were just created undefined), then - once some later step has defined the entries - further macro-ops
+            _, a, pre, addr, n, post = op
+            stepping = a
+            from netqasm.backend.messages import deserialize_host_msg
+
+            prog_pre = [i for m_ in pre for i in expand(m_)] + expand(["array", addr, n]) + [["set", ["C13", 0]], ["set", ["C12", n]]]
+            prog_wait = [["wait_all", [{"addr": addr, "start": "C13", "stop": "C12"}]]]
+            prog_post = [i for m_ in post for i in expand(m_)]
+            sub = Subroutine(instructions=[g.instr_from_json("vanilla", j) for j in prog_pre + prog_wait + prog_post], app_id=a)
+            m = self.model[a]
+            m.ret_log = []
+            mach = ri.Machine(m, prog_pre, other_phys_used=self.used_model(exclude=a))
+            try:
+                fault = mach.run(1000)
+            except ri.OutOfDomain:
+                self.history.pop()
+                raise
+            self.msg_id += 1
+            self.ex.yield_on_wait = True
+            err = None
+            state = None
+            gen = None
+            try:
+                gen = self.ctrl.handle_netqasm_message(self.msg_id, deserialize_host_msg(bytes(SubroutineMessage(sub))))
+                for y in gen:
+                    if y == self.ex.WAITING:
+                        state = "waiting"
+                        break
+            except Exception as e:
+                err = e
+            finally:
+                self.ex.yield_on_wait = False
+            if (err is None) != (fault is None):
+                raise Failure("fault-mismatch", self.case(), f"application {a}: reference fault {fault} vs executor error {err!r} (part before the wait)")
+            if fault is not None:
+                self.info["faults"] += 1
+            else:
+                if state != "waiting":
+                    raise Failure("wait-start:no-wait", self.case(), f"application {a}: a subroutine waiting for the undefined entries of a fresh array @{addr}[0:{n}] ran to completion")
+                self.waiting.append({"app": a, "addr": addr, "n": n, "post": prog_post, "gen": gen, "epoch": self.epoch[a]})
+                self.info["waiting"] = self.info.get("waiting", 0) + 1
+        elif k == "wait_resume":
+            # the scheduler gives a subroutine suspended in wait_all another turn.  Judged only when the application is registered
+            # (possibly again) and owns an array of sufficient length at the awaited address
+            _, idx = op
+            tgt = self.waiting[idx % len(self.waiting)]
+            a, addr, n = tgt["app"], tgt["addr"], tgt["n"]
+            m = self.model.get(a)
+            if m is None or len(m.arrays.get(addr, [])) < n:
+                self.history.pop()
+                return
+            stepping = a
+            blocked = any(v is None for v in m.arrays[addr][:n])
+            m.ret_log = []
+            fault = None
+            if not blocked:
+                mach = ri.Machine(m, tgt["post"], other_phys_used=self.used_model(exclude=a))
+                try:
+                    fault = mach.run(1000)
+                except ri.OutOfDomain:
+                    self.history.pop()
+                    raise
+            self.ex.yield_on_wait = True
+            done = True
+            err = None
+            try:
+                for y in tgt["gen"]:
+                    if y == self.ex.WAITING:
+                        done = False
+                        break
+            except Exception as e:
+                err = e
+            finally:
+                self.ex.yield_on_wait = False
+            if blocked:
+                if err is not None:
+                    raise Failure(f"wait-resume-raises:{type(err).__name__}", self.case(), f"application {a}: its subroutine waiting for @{addr}[0:{n}] = {m.arrays[addr][:n]} raised {type(err).__name__}: {(str(err).splitlines() or [''])[0][:160]}")
+                if done:
+                    raise Failure("wait-resume:wait", self.case(), f"application {a}: @{addr}[0:{n}] is {m.arrays[addr][:n]} but the subroutine waiting for all of these entries finished")
+            else:
+                if err is None and not done:
+                    raise Failure("wait-resume:wait", self.case(), f"application {a}: @{addr}[0:{n}] is {m.arrays[addr][:n]} (all defined) but the subroutine waiting for these entries keeps waiting")
+                if (err is None) != (fault is None):
+                    raise Failure("fault-mismatch", self.case(), f"application {a}: reference fault {fault} vs executor error {err!r} (part after the wait)")
+                if fault is not None:
+                    self.info["faults"] += 1
+                self.waiting.remove(tgt)
+                self.info["wait_resumed"] = self.info.get("wait_resumed", 0) + 1
+                if tgt["epoch"] != self.epoch[a]:
+                    self.info["resumed_in_new_registration"] = self.info.get("resumed_in_new_registration", 0) + 1
         else:
             raise ValueError(op)
         self.info["max_alive"] = max(self.info["max_alive"], len(self.model))
@@ -509,10 +608,51 @@ def make_machine(ctx, stt):
         def epr_resume(self, i):
             self._do(["epr_resume", i])
 
+        @precondition(lambda self: len(self.r.model) >= 1 and len(self.r.waiting) < 2)
+        @rule(i=st.integers(0, 5), pre=st.lists(st_macro, max_size=3), addr=st.integers(0, 2), n=st.integers(1, 2), post=st.lists(st_macro, min_size=1, max_size=3))
+        def wait_start(self, i, pre, addr, n, post):
+            apps = [a for a in sorted(self.r.model) if a not in self._busy()]
+            if apps:
+                self._do(["wait_start", apps[i % len(apps)], pre, addr, n, post])
+
+        @precondition(lambda self: len(self.r.waiting) >= 1)
+        @rule(i=st.integers(0, 5))
+        def wait_resume(self, i):
+            if self.r.waiting[i % len(self.r.waiting)]["app"] in self._busy():
+                return
+            self._do(["wait_resume", i])
+
+        @precondition(lambda self: len(self.r.model) >= 1 and len(self.r.waiting) < 2)
+        @rule(i=st.integers(0, 5), v=st.integers(0, 3), w=st.integers(0, 3), pre=st.lists(st_macro, max_size=2), post=st.lists(st_macro, max_size=2), free_after=st.booleans(),
+              addr=st.integers(0, 2), n=st.integers(1, 2), size=st.integers(1, 4), vals=st.lists(st.integers(-3, 9), min_size=2, max_size=2),
+              reregister=st.booleans(), between=st.lists(st_macro, max_size=2))
+        def application_changes_under_waiting_subroutine(self, i, v, w, pre, post, free_after, addr, n, size, vals, reregister, between):
+            """a subroutine that has used its application's unit module waits on an array; meanwhile the application runs another
+            subroutine or is stopped and registered again; the awaited entries get defined; the subroutine continues with a qalloc / qfree"""
+            apps = [a for a in sorted(self.r.model) if a not in self._busy()]
+            if not apps:
+                return
+            a = apps[i % len(apps)]
+            m = self.r.model[a]
+            free = [x for x in range(m.unit_size) if x not in m.qubits]
+            held = sorted(m.qubits)
+            pre = pre + ([["qalloc", free[v % len(free)]]] if free else [["qfree", held[v % len(held)]]])
+            post = post + [["qfree" if free_after else "qalloc", w]]
+            n_waiting = len(self.r.waiting)
+            self._do(["wait_start", a, pre, addr, n, post])
+            if self.dead or len(self.r.waiting) != n_waiting + 1:
+                return  # the part before the wait faulted: nothing is suspended
+            if reregister:
+                self._do(["stop", a])
+                self._do(["init", a, size])
+            self._do(["sub", a, between + [["array", addr, n]] + [["store", addr, j, vals[j]] for j in range(n)]])
+            if not self.dead:
+                self._do(["wait_resume", len(self.r.waiting) - 1])
+
         def teardown(self):
             info = self.r.info
             nt = info["max_alive"] >= 2 and info["stops"] >= 1
-            labels = [f"alive:{info['max_alive']}"] + [k for k in ("stops", "reinit", "faults", "epr", "reserve", "suspended", "deferred") if info.get(k)] + ([f"suspended-at-once:{info['max_suspended']}"] if info["max_suspended"] >= 2 else [])
+            labels = [f"alive:{info['max_alive']}"] + [k for k in ("stops", "reinit", "faults", "epr", "reserve", "suspended", "deferred", "waiting", "wait_resumed", "stop_while_waiting", "resumed_in_new_registration") if info.get(k)] + ([f"suspended-at-once:{info['max_suspended']}"] if info["max_suspended"] >= 2 else [])
             h = self.r.history
             stt.case(h, nt, labels, sample={"history": h} if len(str(h)) < 600 else None)
 
@@ -537,6 +677,15 @@ def shard(ctx: Ctx) -> None:
             if f_ is not None:
                 ctx.fail(Failure(f_.signature, {"history": hist}, f_.message))
             stt.case(["long-suspension", n_between], True, ["fixed:suspended-across-many-subroutines"])
+    if ctx.shard == 0:
+        # one short fixed history: application 0 is stopped and registered again while one of its subroutines (which already
+        # allocated a qubit) waits on an array; the new registration defines the entry; the subroutine continues and allocates
+        hist = [["init", 0, 2], ["init", 1, 2], ["wait_start", 0, [["qalloc", 0]], 0, 1, [["qalloc", 1]]], ["sub", 1, [["qalloc", 0]]], ["stop", 0], ["init", 0, 2],
+                ["sub", 0, [["array", 0, 1], ["store", 0, 0, 7]]], ["wait_resume", 0], ["sub", 1, [["qalloc", 1]]], ["stop", 0], ["stop", 1]]
+        f_ = replay({"history": hist})
+        if f_ is not None:
+            ctx.fail(Failure(f_.signature, {"history": hist}, f_.message))
+        stt.case(["registered-again-under-waiting-subroutine"], True, ["fixed:registered-again-under-waiting-subroutine"])
     if ctx.thorough():
         alphabet = [["init", 0, 1], ["init", 1, 2], ["stop", 0], ["stop", 1], ["sub", 0, [["qalloc", 0]]], ["sub", 1, [["qalloc", 0]]], ["sub", 1, [["qalloc", 1]]],
                     ["sub", 0, [["qfree", 0]]], ["sub", 1, [["qfree", 0]]], ["epr", 0, 0], ["epr", 1, 1], ["sub", 0, [["setreg", "R0", 3], ["retreg", "R0"]]]]
